@@ -75,9 +75,10 @@ def count_references(elems, counts):
     return counts
 
 
-def expected_symbol_list(prelude_symbols, elems):
-    """-> [(type, count, name)] in order of definition: the symbols of the prelude and those the carrier defines"""
-    counts = count_references(elems, {})
+def expected_symbol_list(prelude_symbols, elems, other_references=None):
+    """-> [(type, count, name)] in order of definition: the symbols of the prelude and those the carrier defines;
+    other_references: {name: number of references made by instructions outside the carrier}"""
+    counts = count_references(elems, dict(other_references or {}))
     out = [(t, counts.get(n, 0), n) for t, n in prelude_symbols]
     for e in elems:
         toks = e['toks']
